@@ -51,6 +51,12 @@ def errStr : CoreErr → String
   | .ok => "ok"
   | .bitmapLen => "bitmap-len"
   | .emptyOwner => "empty-owner"
+  | .updFailed => "update-failed"
+  | .delFailed => "delete-failed"
+
+def errBit : CoreErr → String
+  | .ok => "ok"
+  | _ => "err"
 
 def trackerStr (t : Tracker) : String :=
   let owners := (sortByKey t.owners).map fun p =>
@@ -63,69 +69,118 @@ def trackerStr (t : Tracker) : String :=
 def kernelStr (K : Kernel) : String :=
   "kernel{" ++ " ".intercalate ((sortByIp K).map fun p => ipStr p.1 ++ "=" ++ bitsStr p.2) ++ "}"
 
+/-- FNV-1a (64 bit) of the table string: the per-line fingerprint of the whole table. -/
+def digest (s : String) : String :=
+  toString (s.foldl (fun (h : UInt64) c => (h ^^^ c.toNat.toUInt64) * 1099511628211) 14695981039346656037)
+
+def tableFp (K : Kernel) : String := "k=" ++ toString K.length ++ " t=" ++ digest (kernelStr K)
+
+/-- property-relevant part of a cache entry (key, bitmap, listed addresses). -/
 def cacheStr (c : List (String × Entry)) : String :=
   "cache{" ++ " ".intercalate ((sortByKey c).map fun p =>
-    p.1 ++ ":" ++ bitsStr p.2.bitmap ++ ":" ++ ",".intercalate ((sortNat (ansIps p.2.ans)).map ipStr) ++
-      ":dl=" ++ toString p.2.deadline ++ ":odl=" ++ toString p.2.origDeadline ++ ":sync=" ++ toString p.2.lastSync ++
+    p.1 ++ ":" ++ bitsStr p.2.bitmap ++ ":" ++ ",".intercalate ((sortNat (ansIps p.2.ans)).map ipStr)) ++ "}"
+
+/-- bookkeeping of the cache entries (deadlines, refresh and LRU stamps). -/
+def stampsStr (c : List (String × Entry)) : String :=
+  "stamps{" ++ " ".intercalate ((sortByKey c).map fun p =>
+    p.1 ++ ":dl=" ++ toString p.2.deadline ++ ":odl=" ++ toString p.2.origDeadline ++ ":sync=" ++ toString p.2.lastSync ++
       ":acc=" ++ toString p.2.lastAccess) ++ "}"
 
 def pendingStr (p : List Task) : String :=
   "pending[" ++ " ".intercalate (p.map fun t => t.key ++ "@" ++ toString t.now) ++ "]"
 
-def cSummary (σ : CState) : String :=
-  callsStr σ.tk.log ++ " n=" ++ toString σ.cache.length ++ " p=" ++ toString σ.pending.length ++
-    " k=" ++ toString σ.tk.K.length ++ " m=" ++ boolStr (mirrorOk σ.cache σ.tk.K)
+/-- `strict ## drift`: the left part is what the property speaks about (is the call accepted, the table,
+the cache contents, the mirror flag), the right part is bookkeeping (batch shapes, queue, policies). -/
+def line (strict drift : String) : String := strict ++ " ## " ++ drift
+
+def cLine (σ : CState) (extra : String := "") : String :=
+  line ("n=" ++ toString σ.cache.length ++ " " ++ tableFp σ.tk.K ++ " m=" ++ boolStr (mirrorOk σ.cache σ.tk.K))
+    (extra ++ callsStr σ.tk.log ++ " p=" ++ toString σ.pending.length)
 
 def clearLogT (s : TK) : TK := { s with log := [] }
 def clearLogC (σ : CState) : CState := { σ with tk := clearLogT σ.tk }
 
-def runC (d : DState) (op : COp) (extra : String := "") : DState × String :=
-  let σ := cstep (clearLogC d.cs) op
-  ({ d with cs := σ }, extra ++ cSummary σ)
+/-- every cache-stream op starts one nanosecond later than the previous one ended (the harness does the
+same with the virtual clock), so that no two LRU stamps are equal and runs are reproducible. -/
+def tick (σ : CState) : CState := { clearLogC σ with now := σ.now + 1 }
 
-def handle (d : DState) (line : String) : DState × String :=
-  match words line with
-  | ["tnew"] => ({ d with tk := TK.empty }, "ok")
-  | "tupd" :: o :: len :: bm :: rest =>
-    match len.toNat?, parseBits? bm, rest.mapM parseAns? with
-    | some n, some b, some ans =>
-      let r := batchUpdate (clearLogT d.tk) (some ⟨ownerOfTok o, n, b, ans⟩)
-      ({ d with tk := r.1 }, "e=" ++ errStr r.2 ++ " " ++ callsStr r.1.log)
-    | _, _, _ => (d, "bad-op")
-  | ["trm", o] =>
-    let r := batchRemove (clearLogT d.tk) (some ⟨ownerOfTok o, bitmapWords, 0, []⟩)
-    ({ d with tk := r.1 }, "e=" ++ errStr r.2 ++ " " ++ callsStr r.1.log)
+def runC (d : DState) (op : COp) (extra : String := "") : DState × String :=
+  let σ := cstep (tick d.cs) op
+  ({ d with cs := σ }, cLine σ extra)
+
+def parseOutcome? : String → Option Outcome
+  | "ok" => some .ok
+  | "uf" => some .updFail
+  | "df" => some .delFail
+  | _ => none
+
+def tLine (r : TK × CoreErr) : String :=
+  line ("e=" ++ errBit r.2 ++ " " ++ tableFp r.1.K) ("class=" ++ errStr r.2 ++ " " ++ callsStr r.1.log)
+
+def parseAssign? (toks : List String) : Option (List (String × Bitmap)) :=
+  toks.mapM fun t =>
+    match t.splitOn "=" with
+    | [k, b] => (parseBits? b).map fun bm => (k, bm)
+    | _ => none
+
+def handle (d : DState) (line' : String) : DState × String :=
+  match words line' with
+  | ["tnew"] => ({ d with tk := TK.empty }, line "ok" "")
+  | "tupd" :: oc :: o :: len :: bm :: rest =>
+    match parseOutcome? oc, len.toNat?, parseBits? bm, rest.mapM parseAns? with
+    | some oc, some n, some b, some ans =>
+      let r := batchUpdate (clearLogT d.tk) (some ⟨ownerOfTok o, n, b, ans⟩) oc
+      ({ d with tk := r.1 }, tLine r)
+    | _, _, _, _ => (d, "bad-op")
+  | ["trm", oc, o] =>
+    match parseOutcome? oc with
+    | some oc =>
+      let r := batchRemove (clearLogT d.tk) (some ⟨ownerOfTok o, bitmapWords, 0, []⟩) oc
+      ({ d with tk := r.1 }, tLine r)
+    | none => (d, "bad-op")
   | ["tnil", which] =>
     let r := if which = "upd" then batchUpdate (clearLogT d.tk) none else batchRemove (clearLogT d.tk) none
-    ({ d with tk := r.1 }, "e=" ++ errStr r.2 ++ " " ++ callsStr r.1.log)
-  | ["tdump"] => (d, trackerStr d.tk.t ++ " " ++ kernelStr d.tk.K)
+    ({ d with tk := r.1 }, tLine r)
+  | "tnobpf" :: _ =>
+    -- `PeekBpf() == nil`: the call is dropped before the tracker is touched
+    (d, tLine (clearLogT d.tk, .ok))
+  | ["tdump"] => (d, line (kernelStr d.tk.K) (trackerStr d.tk.t))
   | ["cnew", en, ttl, mx] =>
     match ttl.toNat?, mx.toNat? with
-    | some t, some m => ({ d with cs := CState.init ⟨en = "1", t, m⟩ }, "ok")
+    | some t, some m => ({ d with cs := CState.init ⟨en = "1", t, m⟩ }, line "ok" "")
     | _, _ => (d, "bad-op")
-  | "put" :: key :: ttl :: fttl :: bm :: rest =>
-    match ttl.toNat?, parseBits? bm, rest.mapM parseAns? with
-    | some t, some b, some ans =>
-      if fttl = "-" then runC d (.put key t none b ans)
+  | "put" :: key :: fqdn :: qt :: ttl :: fttl :: bm :: rest =>
+    match qt.toNat?, ttl.toNat?, parseBits? bm, rest.mapM parseAns? with
+    | some q, some t, some b, some ans =>
+      if fttl = "-" then runC d (.put (ownerOfTok key) fqdn q t none b ans)
       else match fttl.toNat? with
-        | some f => runC d (.put key t (some f) b ans)
+        | some f => runC d (.put (ownerOfTok key) fqdn q t (some f) b ans)
         | none => (d, "bad-op")
-    | _, _, _ => (d, "bad-op")
+    | _, _, _, _ => (d, "bad-op")
   | ["del", key] => runC d (.del key)
   | "fam" :: base :: order =>
-    runC d (.fam base order) ("legal=" ++ boolStr (famLegal d.cs base order) ++ " ")
-  | ["look", key, ig] => runC d (.look key (ig = "1"))
-  | "jan" :: order => runC d (.jan order) ("legal=" ++ boolStr (janLegal d.cs order) ++ " ")
+    runC d (.fam base order) ("legal=" ++ boolStr (famLegal (tick d.cs) base order) ++ " ")
+  | ["look", key, ig, ev, q] =>
+    let pred := predictLook (tick d.cs) key (ig = "1")
+    runC d (.look key (ev = "1") (q = "1")) ("pred=" ++ boolStr (pred == (decide (ev = "1"), decide (q = "1"))) ++ " ")
+  | ["hot", key, pk, ev, q] =>
+    let pred := predictHot (tick d.cs) key (pk = "1")
+    runC d (.hot key (ev = "1") (q = "1")) ("pred=" ++ boolStr (pred == (decide (ev = "1"), decide (q = "1"))) ++ " ")
+  | "jan" :: order => runC d (.jan order) ("legal=" ++ boolStr (janLegal (tick d.cs) order) ++ " ")
   | ["sleep", ns] =>
     match ns.toNat? with
     | some n => runC d (.sleep n)
     | none => (d, "bad-op")
   | ["work"] => runC d .work
   | ["touch", key] => runC d (.touch key)
-  | ["hot", key, pk] => runC d (.hot key (pk = "1"))
+  | "reload" :: rest =>
+    match parseAssign? rest with
+    | some assign => runC d (.reload assign) ("legal=" ++ boolStr (reloadLegal d.cs assign) ++ " ")
+    | none => (d, "bad-op")
   | ["cdump"] =>
-    (d, "now=" ++ toString d.cs.now ++ " " ++ cacheStr d.cs.cache ++ " " ++ pendingStr d.cs.pending ++ " " ++
-      trackerStr d.cs.tk.t ++ " " ++ kernelStr d.cs.tk.K)
+    (d, line (cacheStr d.cs.cache ++ " " ++ kernelStr d.cs.tk.K)
+      ("now=" ++ toString d.cs.now ++ " " ++ stampsStr d.cs.cache ++ " " ++ pendingStr d.cs.pending ++ " " ++
+        trackerStr d.cs.tk.t))
   | _ => (d, "bad-op")
 
 def main : IO Unit := lineLoopS (default : DState) handle
